@@ -76,7 +76,7 @@ def _setup(ctx, is_method, lookup_table):
     return rw, hi, self_obj
 
 
-def _call_node(callee, args=("A0", "A1"), kws=(("K0", "V0"),), star=False, dstar=False):
+def _call_node(callee, args=("A0", "A1"), kws=(("K1", "V1"), ("K0", "V0")), star=False, dstar=False):
     a = [ast.Name(id=x, ctx=ast.Load()) for x in args]
     if star:
         a = [ast.Starred(value=ast.Name(id="XS", ctx=ast.Load()), ctx=ast.Load())]
@@ -244,7 +244,7 @@ def rw_loc(ctx):
 
 
 # ------------------------------------------------------------------------------------------------ laws
-SCEN = (("recurse", "recurse(a0, a1, k0=v0)"), ("self-name", "<own name>(a0, a1, k0=v0)"), ("call_next", "call_next(a0, a1, k0=v0)"))
+SCEN = (("recurse", "recurse(a0, a1, k1=v1, k0=v0)"), ("self-name", "<own name>(a0, a1, k1=v1, k0=v0)"), ("call_next", "call_next(a0, a1, k1=v1, k0=v0)"))
 
 
 def _sites(ctx):
@@ -270,7 +270,7 @@ def law_each_argument_once(ctx):
         ctx.ob(
             f"{m.key}:rewrite:{name}",
             loc,
-            f"`{desc}` is rewritten into TABLE[(type(t0 := a0), type(t1 := a1), ('k0', type(tk := v0)))](t0, t1, k0=tk): every argument evaluated once, in source order, passed from its own temporary (abstractly executed)",
+            f"`{desc}` is rewritten into TABLE[(type(t0 := a0), type(t1 := a1), ('k1', type(tk1 := v1)), ('k0', type(tk0 := v0)))](t0, t1, k1=tk1, k0=tk0): every argument evaluated once, in the order written (keywords too), passed from its own temporary (abstractly executed)",
             ok,
             (s.why if s is not None else f"the call is not rewritten into a table lookup (result: {res if isinstance(res, tuple) else type(res).__name__})") + ": an argument is evaluated twice, dropped, reordered or passed under another name",
         )
